@@ -137,3 +137,27 @@ pub fn sha1() {
         writeln!(out, "{} {}", id, hex(&hasher.finalize())).unwrap();
     }
 }
+
+
+/// Case: `<id> <hex of the document>`: `Torrent::from_bytes` followed by `Pieces::from_torrent`.
+pub fn doclayout() {
+    quiet_panics();
+    let out = std::io::stdout();
+    let mut out = std::io::BufWriter::new(out.lock());
+    for line in lines() {
+        let (id, h) = line.split_once(' ').unwrap();
+        let bytes = unhex(h);
+        let result = guarded(move || Torrent::from_bytes(&bytes).map(|torrent| Pieces::from_torrent(&torrent)));
+        match result {
+            Ok(Ok(ps)) => {
+                let rendered: Vec<String> = ps.iter().map(|p| {
+                    let segs: Vec<String> = p.files.iter().map(|f| format!("{},{},{},{}", f.file_index, f.read_start_position, f.read_length, f.file_length)).collect();
+                    format!("{}:{}:{}:{}", p.position, hx(&p.hash), p.length, segs.join(";"))
+                }).collect();
+                writeln!(out, "{} ok {}", id, rendered.join("|")).unwrap();
+            }
+            Ok(Err(_)) => writeln!(out, "{} err", id).unwrap(),
+            Err(_) => writeln!(out, "{} panic", id).unwrap(),
+        }
+    }
+}
